@@ -1,4 +1,5 @@
 import SpecVerif.Proofs.C17
+import SpecVerif.Proofs.C17Impl
 /-!
 # C17 — every generated method accepts exactly what its advertised signature says
 
@@ -756,5 +757,336 @@ theorem kwonly_required_witness :
       buildResult Builder.init impl = "ok" ∧ wrapper Builder.init c = .ok f ∧
       pyBind impl f.toCall = .error .typeError := by
   refine ⟨[⟨"self", .posOrKw, false⟩, ⟨"z", .kwOnly, false⟩], ⟨["self"], []⟩, _, by decide, rfl, rfl⟩
+
+/-! # Inside the implementation: the keywords reach the behaviour
+
+`Model/C17Impl.lean` continues where the wrapper stops: `updateImpl` (`UpdateMethod.update` +
+the `mutate_value` fragment it uses) and `initImpl` (`InitMethod.init` with the delegation to the
+constructors of ALL spec-class ancestors, at any depth, with plain classes in between). The
+theorems below are first stated on the implementation alone (for every forwarded call / every
+`kwargs`), then composed with `forwards_bound` into statements about the caller's call. -/
+
+/-- **update: a keyword reaches the result, whatever is passed alongside.** For every forwarded
+call with distinct keywords: when `_if` is on and `_new_value` is not `UNCHANGED`, every attribute
+keyword carrying a plain value is what the result holds — with or without a replacement
+`_new_value`, in place or not, and whatever the other keywords are. -/
+theorem update_keyword_reaches_impl (E : Env α) (selfFields : Fields α) (f : FCall α)
+    (hn : (f.kw.map (·.1)).Nodup) (k : Name) (v : α)
+    (hm : (k, Arg.val v) ∈ f.kw) (hk : k ∉ updateParams) (hp : E.sent v = .plain)
+    (hif : argTruthy E true (kwGet f.kw "_if") = true)
+    (hnu : ∀ w, kwGet f.kw "_new_value" = some (.val w) → E.sent w ≠ .unchanged) :
+    getField (updateImpl E selfFields f).fields k = some v := by
+  have hattrs : (k, Arg.val v) ∈ f.kw.filter (fun kv => !updateParams.contains kv.1) := by
+    rw [List.mem_filter]; exact ⟨hm, by simpa using hk⟩
+  have hnd := filter_keys_nodup (fun kv : Name × Arg α => !updateParams.contains kv.1) hn
+  have key : ∀ inplace src base, getField (finishUpd E
+      (f.kw.filter (fun kv => !updateParams.contains kv.1)) inplace src base).fields k = some v := by
+    intro inplace src base
+    unfold finishUpd
+    split
+    · rename_i he
+      cases hl : f.kw.filter (fun kv => !updateParams.contains kv.1) with
+      | nil => rw [hl] at hattrs; cases hattrs
+      | cons _ _ => rw [hl] at he; cases he
+    · exact applyAttrs_reaches E _ base k v hnd hattrs hp
+  unfold updateImpl
+  simp only [hif, Bool.not_true, Bool.false_eq_true, if_false]
+  unfold mutateValue
+  cases hnv : kwGet f.kw "_new_value" with
+  | none => exact key _ _ _
+  | some a =>
+    cases a with
+    | dflt m => exact key _ _ _
+    | val w =>
+      have := hnu w hnv
+      simp only []
+      cases hs : E.sent w with
+      | unchanged => exact absurd hs this
+      | plain => exact key _ _ _
+      | missing => exact key _ _ _
+      | empty => exact key _ _ _
+
+/-- **update: the rest of the result is the replacement (when one is given), else the receiver.**
+An attribute no keyword names keeps the value it has on the base object. -/
+theorem update_base_impl (E : Env α) (selfFields : Fields α) (f : FCall α) (n : Name)
+    (hn : n ∉ (f.kw.filter (fun kv => !updateParams.contains kv.1)).map (·.1))
+    (hif : argTruthy E true (kwGet f.kw "_if") = true) :
+    getField (updateImpl E selfFields f).fields n =
+      match kwGet f.kw "_new_value" with
+      | some (.val w) => if E.sent w = .plain then getField (E.fieldsOf w) n else getField selfFields n
+      | _ => getField selfFields n := by
+  have key : ∀ inplace src base, getField (finishUpd E
+      (f.kw.filter (fun kv => !updateParams.contains kv.1)) inplace src base).fields n = getField base n := by
+    intro inplace src base
+    unfold finishUpd
+    split
+    · rfl
+    · exact applyAttrs_preserve E _ base n hn
+  unfold updateImpl
+  simp only [hif, Bool.not_true, Bool.false_eq_true, if_false]
+  unfold mutateValue
+  cases hnv : kwGet f.kw "_new_value" with
+  | none => exact key _ _ _
+  | some a =>
+    cases a with
+    | dflt m => exact key _ _ _
+    | val w =>
+      simp only []
+      cases hs : E.sent w with
+      | unchanged => simp
+      | plain => simpa using key _ _ _
+      | missing => simpa using key _ _ _
+      | empty => simpa using key _ _ _
+
+/-- `_if=False`: the receiver itself, untouched, whatever else is passed. -/
+theorem update_if_false_is_noop (E : Env α) (selfFields : Fields α) (f : FCall α)
+    (hif : argTruthy E true (kwGet f.kw "_if") = false) :
+    updateImpl E selfFields f = ⟨.self, selfFields⟩ := by
+  unfold updateImpl
+  simp [hif]
+
+/-- Not in place and at least one attribute keyword: the edits go to a COPY (of the replacement or
+of the receiver); neither the receiver nor the replacement object is what comes back. -/
+theorem update_copies_unless_inplace (E : Env α) (selfFields : Fields α) (f : FCall α)
+    (hne : (f.kw.filter (fun kv => !updateParams.contains kv.1)) ≠ [])
+    (hif : argTruthy E true (kwGet f.kw "_if") = true)
+    (hin : argTruthy E false (kwGet f.kw "_inplace") = false)
+    (hnu : ∀ w, kwGet f.kw "_new_value" = some (.val w) → E.sent w ≠ .unchanged) :
+    (updateImpl E selfFields f).src = .copyOfSelf ∨ (updateImpl E selfFields f).src = .copyOfNew := by
+  have key : ∀ src base, (finishUpd E (f.kw.filter (fun kv => !updateParams.contains kv.1))
+      false src base).src = src.copy := by
+    intro src base
+    unfold finishUpd
+    split
+    · rename_i he
+      cases hl : f.kw.filter (fun kv => !updateParams.contains kv.1) with
+      | nil => exact absurd hl hne
+      | cons _ _ => rw [hl] at he; cases he
+    · rfl
+  unfold updateImpl
+  simp only [hif, Bool.not_true, Bool.false_eq_true, if_false]
+  unfold mutateValue
+  rw [hin]
+  cases hnv : kwGet f.kw "_new_value" with
+  | none => exact Or.inl (key _ _)
+  | some a =>
+    cases a with
+    | dflt m => exact Or.inl (key _ _)
+    | val w =>
+      have := hnu w hnv
+      simp only []
+      cases hs : E.sent w with
+      | unchanged => exact absurd hs this
+      | plain => exact Or.inr (key _ _)
+      | missing => exact Or.inl (key _ _)
+      | empty => exact Or.inl (key _ _)
+
+/-- **update_keywords_reach (caller's side).** For every buildable builder and every call the
+generated `update` accepts: each nested-attribute keyword the caller passed with a plain value is
+what the result holds — also when a replacement `_new_value` (by position or by keyword) and/or
+`_inplace` are passed in the same call. -/
+theorem update_keywords_reach {b : Builder} (hb : Good b) (E : Env α) (selfFields : Fields α)
+    (c : Call α) (f : FCall α) (h : wrapper b c = .ok f)
+    (hif : argTruthy E true (kwGet f.kw "_if") = true)
+    (hnu : ∀ w, kwGet f.kw "_new_value" = some (.val w) → E.sent w ≠ .unchanged) :
+    runUpdate E b selfFields c = .ok (updateImpl E selfFields f) ∧
+    ∀ p ∈ b.virt, p.kind = .kwOnly → p.name ∉ updateParams →
+      ∀ v, kwGet c.kw p.name = some v → E.sent v = .plain →
+        getField (updateImpl E selfFields f).fields p.name = some v := by
+  refine ⟨by simp [runUpdate, h], ?_⟩
+  intro p hp hk hnp v hv hpl
+  have hfw := (forwards_bound hb c f h).2.2.1 p hp hk
+  rw [hv] at hfw
+  exact update_keyword_reaches_impl E selfFields f (forwarded_keys_nodup hb c f h) p.name v hfw hnp hpl
+    hif hnu
+
+/-! ## the constructor -/
+
+/-- **init_accepts.** On a well-formed hierarchy (`hierOKB`, evaluated by the driver on every
+described hierarchy and compared with the real classes) the constructor never fails: the constructor
+of every spec-class ancestor accepts what it is handed. -/
+theorem init_accepts (cfg : InitCfg) (hok : hierOKB cfg = true) (kwargs : Fields (IVal α)) :
+    ∃ r, initImpl cfg kwargs = .ok r := by
+  have H := hierOK_of_B hok
+  have hps : ∀ p ∈ cfg.ancestors.reverse, p.attrs.Nodup ∧ (p.isSpec = true → ctorOKB cfg p = true) :=
+    fun p hp => ⟨H.pattrsNodup p (List.mem_reverse.1 hp), H.ctorOK p (List.mem_reverse.1 hp)⟩
+  obtain ⟨⟨fs, kw⟩, hr⟩ := parentsLoop_ok cfg cfg.ancestors.reverse hps ([] : Fields (IVal α)) kwargs
+  exact ⟨⟨ownLoop cfg 0 kw fs, cfg.overflow.map (fun _ => kw.filter (fun kv => overflows cfg kv.1))⟩,
+    by unfold initImpl; rw [hr]⟩
+
+/-- **init: a keyword reaches the instance, whoever owns the attribute.** For every well-formed
+hierarchy — any number of spec-class ancestors, plain classes in between, several bases — and every
+`kwargs` with distinct keys: a keyword naming an init-enabled attribute (not the overflow attribute)
+and carrying a value is what the instance holds for that attribute, whether the attribute is owned
+by the class itself or by an ancestor at ANY distance. -/
+theorem init_keyword_reaches_impl (cfg : InitCfg) (hok : hierOKB cfg = true) (kwargs : Fields (IVal α))
+    (hkn : (kwargs.map (·.1)).Nodup) (r : InitRes α) (h : initImpl cfg kwargs = .ok r)
+    (n : Name) (a : CAttr) (v : α) (ha : findAttr cfg n = some a) (hi : initable cfg a = true)
+    (hm : (n, IVal.given v) ∈ kwargs) :
+    getField r.fields n = some (.given v) := by
+  have H := hierOK_of_B hok
+  have hk : kwGet kwargs n = some (.given v) := kwGet_of_mem_nodup hkn hm
+  unfold initImpl at h
+  cases hpl : parentsLoop cfg cfg.ancestors.reverse ([] : Fields (IVal α)) kwargs with
+  | error e => rw [hpl] at h; cases h
+  | ok res =>
+    obtain ⟨fs, kw⟩ := res
+    rw [hpl] at h
+    cases h
+    simp only []
+    by_cases ho : a.owner = 0
+    · -- owned by the class itself: no ancestor is handed it, the own loop stores it
+      have hkeep := (parentsLoop_kw_keep cfg _ _ _ _ _ hpl n (by
+        intro p hp _
+        rw [handed_owner ha]
+        have : (a.owner == p.id) = false := by
+          simpa [ho] using (fun he : 0 = p.id => H.idPos p (List.mem_reverse.1 hp) he.symm)
+        simp [this])).1
+      exact ownLoop_given cfg H.attrsNodup 0 kw fs ha hi ho (by rw [hkeep]; exact hk)
+    · -- owned by an ancestor: its constructor stores it, nobody touches it afterwards
+      obtain ⟨p, hp, hpid, hsp, hmem⟩ := H.owned a (findAttr_mem ha).1 ho hi
+      have hids : ((cfg.ancestors.reverse).map (·.id)).Nodup := by
+        rw [List.map_reverse]; exact (List.reverse_perm _).nodup_iff.2 H.idsNodup
+      have hst := (parentsLoop_stores cfg H.attrsNodup _ hids
+        (fun q hq => H.pattrsNodup q (List.mem_reverse.1 hq)) _ _ _ _ hpl ha hi
+        (List.mem_reverse.2 hp) hpid hsp (by rw [← (findAttr_mem ha).2]; exact hmem)).1 v hk
+      rw [ownLoop_other cfg H.attrsNodup 0 kw fs ha ho]
+      exact hst
+
+/-- **init: "defaults are as shown".** An init-enabled attribute with a default whose keyword is not
+passed (or is `MISSING`) holds its default — again at any inheritance distance. -/
+theorem init_default_when_unpassed (cfg : InitCfg) (hok : hierOKB cfg = true) (kwargs : Fields (IVal α))
+    (r : InitRes α) (h : initImpl cfg kwargs = .ok r)
+    (n : Name) (a : CAttr) (ha : findAttr cfg n = some a) (hi : initable cfg a = true)
+    (hd : a.hasDefault = true) (hk : kwGet kwargs n = none ∨ kwGet kwargs n = some .missing) :
+    getField r.fields n = some (.dflt n) := by
+  have H := hierOK_of_B hok
+  unfold initImpl at h
+  cases hpl : parentsLoop cfg cfg.ancestors.reverse ([] : Fields (IVal α)) kwargs with
+  | error e => rw [hpl] at h; cases h
+  | ok res =>
+    obtain ⟨fs, kw⟩ := res
+    rw [hpl] at h
+    cases h
+    simp only []
+    by_cases ho : a.owner = 0
+    · have hkeep := (parentsLoop_kw_keep cfg _ _ _ _ _ hpl n (by
+        intro p hp _
+        rw [handed_owner ha]
+        have : (a.owner == p.id) = false := by
+          simpa [ho] using (fun he : 0 = p.id => H.idPos p (List.mem_reverse.1 hp) he.symm)
+        simp [this])).1
+      exact ownLoop_default cfg H.attrsNodup 0 kw fs ha hi ho hd (by rw [hkeep]; exact hk)
+    · obtain ⟨p, hp, hpid, hsp, hmem⟩ := H.owned a (findAttr_mem ha).1 ho hi
+      have hids : ((cfg.ancestors.reverse).map (·.id)).Nodup := by
+        rw [List.map_reverse]; exact (List.reverse_perm _).nodup_iff.2 H.idsNodup
+      have hst := (parentsLoop_stores cfg H.attrsNodup _ hids
+        (fun q hq => H.pattrsNodup q (List.mem_reverse.1 hq)) _ _ _ _ hpl ha hi
+        (List.mem_reverse.2 hp) hpid hsp (by rw [← (findAttr_mem ha).2]; exact hmem)).2 hd hk
+      rw [ownLoop_other cfg H.attrsNodup 0 kw fs ha ho]
+      exact hst
+
+/-- **init: the overflow attribute collects exactly the other keywords.** With an overflow
+attribute, a keyword that names no init-enabled attribute ends up in it with the value given, and
+nothing else does. -/
+theorem init_overflow_collects (cfg : InitCfg) (kwargs : Fields (IVal α))
+    (r : InitRes α) (h : initImpl cfg kwargs = .ok r) (o : Name) (ho : cfg.overflow = some o) :
+    ∃ ov, r.overflow = some ov ∧
+      (∀ n x, (n, x) ∈ kwargs → overflows cfg n = true → (n, x) ∈ ov) ∧
+      (∀ kv ∈ ov, kv ∈ kwargs ∧ overflows cfg kv.1 = true) := by
+  unfold initImpl at h
+  cases hpl : parentsLoop cfg cfg.ancestors.reverse ([] : Fields (IVal α)) kwargs with
+  | error e => rw [hpl] at h; cases h
+  | ok res =>
+    obtain ⟨fs, kw⟩ := res
+    rw [hpl] at h
+    cases h
+    refine ⟨kw.filter (fun kv => overflows cfg kv.1), by simp [ho], ?_, ?_⟩
+    · intro n x hm hov
+      rw [List.mem_filter]
+      refine ⟨(parentsLoop_kw_keep cfg _ _ _ _ _ hpl n ?_).2 x hm, hov⟩
+      intro p _ _
+      unfold overflows at hov
+      unfold handed
+      cases ha : findAttr cfg n with
+      | none => rfl
+      | some a =>
+        rw [ha] at hov
+        have hname := (findAttr_mem ha).2
+        simp only [initable]
+        simp only [Bool.or_eq_true, Bool.not_eq_true', beq_iff_eq] at hov
+        rcases hov with hni | hovn
+        · simp [hni]
+        · simp [hovn, hname]
+    · intro kv hkv
+      rw [List.mem_filter] at hkv
+      exact ⟨parentsLoop_kw_sub cfg _ _ _ _ _ hpl kv hkv.1, hkv.2⟩
+
+theorem toKwargs_keys_nodup (E : Env α) (f : FCall α) (hn : (f.kw.map (·.1)).Nodup) :
+    ((toKwargs E f).map (·.1)).Nodup := by
+  unfold toKwargs
+  rw [List.map_map]
+  exact filter_keys_nodup (fun kv : Name × Arg α => kv.1 != "self") hn
+
+/-- **constructor_keywords_reach (caller's side).** For every buildable constructor builder, every
+well-formed hierarchy and every call the generated constructor accepts: the implementation does not
+fail, and each nested-attribute keyword the caller passed with a value is what the instance holds —
+whichever class of the hierarchy, at whatever distance, owns the attribute. -/
+theorem constructor_keywords_reach {b : Builder} (hb : Good b) (E : Env α) (cfg : InitCfg)
+    (hok : hierOKB cfg = true) (c : Call α) (f : FCall α) (h : wrapper b c = .ok f) :
+    ∃ r, runInit E b cfg c = .ok r ∧
+      ∀ p ∈ b.virt, p.kind = .kwOnly → p.name ≠ "self" →
+        ∀ v a, kwGet c.kw p.name = some v → E.sent v ≠ .missing →
+          findAttr cfg p.name = some a → initable cfg a = true →
+            getField r.fields p.name = some (.given v) := by
+  obtain ⟨r, hr⟩ := init_accepts cfg hok (toKwargs E f)
+  refine ⟨r, by simp [runInit, h, hr], ?_⟩
+  intro p hp hk hns v a hv hnm ha hi
+  have hfw := (forwards_bound hb c f h).2.2.1 p hp hk
+  rw [hv] at hfw
+  have hmem : (p.name, IVal.given v) ∈ toKwargs E f := by
+    unfold toKwargs
+    rw [List.mem_map]
+    refine ⟨(p.name, Arg.val v), ?_, ?_⟩
+    · rw [List.mem_filter]; exact ⟨hfw, by simpa using hns⟩
+    · have : (E.sent v == Sent.missing) = false := by simpa using hnm
+      simp [toIVal, this]
+  exact init_keyword_reaches_impl cfg hok (toKwargs E f)
+    (toKwargs_keys_nodup E f (forwarded_keys_nodup hb c f h)) r hr p.name a v ha hi hmem
+
+/-! ### non-vacuity: a three-level chain with a plain class in between
+
+`Base(name, tags) <- Plain (undecorated) <- Mid(level) <- Leaf(size)`; the constructor of `Leaf`. -/
+
+def exChain : InitCfg :=
+  { attrs := [⟨"name", true, 3, true⟩, ⟨"tags", true, 3, true⟩, ⟨"level", true, 1, true⟩, ⟨"size", true, 0, false⟩]
+    overflow := none
+    ancestors := [
+      ⟨1, true, ["name", "tags", "level"], none,
+        [⟨"self", .posOrKw, false⟩, ⟨"name", .kwOnly, true⟩, ⟨"tags", .kwOnly, true⟩, ⟨"level", .kwOnly, true⟩]⟩,
+      ⟨2, false, [], none, []⟩,
+      ⟨3, true, ["name", "tags"], none,
+        [⟨"self", .posOrKw, false⟩, ⟨"name", .kwOnly, true⟩, ⟨"tags", .kwOnly, true⟩]⟩] }
+
+example : hierOKB exChain = true := by decide
+
+/-- `Leaf(name="n", size=3)`: the grandparent's attribute holds the value given, the others their defaults -/
+example : initImpl exChain [("name", IVal.given "n"), ("size", IVal.given "3")] =
+    .ok ⟨[("name", .given "n"), ("tags", .dflt "tags"), ("level", .dflt "level"), ("size", .given "3")], none⟩ := rfl
+
+/-- Why the loop must visit EVERY ancestor: with the direct base only (`ancestors.take 1`), the same
+call is accepted and the keyword of the grandparent's attribute reaches nothing. -/
+theorem direct_bases_only_witness :
+    (initImpl { exChain with ancestors := exChain.ancestors.take 1 }
+        [("name", IVal.given "n"), ("size", IVal.given "3")]).toOption.bind
+      (fun r => getField r.fields "name") = none := by
+  decide
+
+/-- `p.update(q, x=…)`: the keyword lands on a copy of the replacement; `q`'s other attributes come along -/
+example :
+    let E : Env String := ⟨fun _ => .plain, fun _ => true, fun _ => [("x", "q.x"), ("y", "q.y")]⟩
+    updateImpl E [("x", "s.x"), ("y", "s.y")]
+      ⟨[], [("self", .val "p"), ("_new_value", .val "q"), ("_inplace", .dflt "_inplace"),
+            ("_if", .dflt "_if"), ("x", .val "k.x")]⟩ = ⟨.copyOfNew, [("x", "k.x"), ("y", "q.y")]⟩ := rfl
 
 end SpecVerif.Props.C17
